@@ -559,6 +559,17 @@ class Summarizer:
             raise Unsupported("unary op")
         if isinstance(n, ast.BinOp):
             return self.binop(n.op, self.expr(n.left, st), self.expr(n.right, st))
+        if isinstance(n, ast.BoolOp) and not all(isinstance(v, (ast.Compare, ast.BoolOp)) or (isinstance(v, ast.UnaryOp) and isinstance(v.op, ast.Not)) for v in n.values):
+            # value semantics of  a or b / a and b
+            vals = [self.expr(v, st) for v in n.values]
+            out = vals[-1]
+            for x in reversed(vals[:-1]):
+                t = self.truthy(x)
+                if isinstance(n.op, ast.Or):
+                    out = x if t is True else (out if t is False else Sym(("ite", t, x, out)))
+                else:
+                    out = out if t is True else (x if t is False else Sym(("ite", t, out, x)))
+            return out
         if isinstance(n, (ast.Compare, ast.BoolOp)):
             return BoolV(self.cond(n, st))
         if isinstance(n, ast.Call):
@@ -697,6 +708,8 @@ class Summarizer:
     def truthy(self, v):
         if isinstance(v, BoolV):
             return v.f
+        if isinstance(v, Sym) and isinstance(v.key, tuple) and v.key and v.key[0] == "ite":
+            return Or(And(v.key[1], self.truthy(v.key[2])), And(Not(v.key[1]), self.truthy(v.key[3])))
         if isinstance(v, bool):
             return v
         if v is None:
